@@ -754,8 +754,19 @@ def check_polarity(ctx: Ctx, te: FuncInfo):
         which = norm(lp[0].iter) if lp else "?"
         by_loop[which] = kw
     b, o = by_loop.get("body"), by_loop.get("orelse")
-    ok = b is not None and o is not None and norm(b["body"]) == "b.value" and norm(b["orelse"]) == "orelse_inner" and norm(o["orelse"]) == "b.value" and norm(o["body"]) == "orelse_inner"
-    ctx.check(ok, "MP-polarity", vi, "then-assignments take effect when the condition holds, else-assignments when it does not", "", "the value assigned in a branch is placed on the wrong side of the generated if-expression", vi.node)
+    lv = {norm(l.iter): norm(l.target) for l in loops}
+    if b is None or o is None or not all(k in kw_ for kw_ in (b, o) for k in ("body", "orelse")):
+        ctx.undecided(vi.short, "the if-expressions are not built one in the loop over the then-branch and one in the loop over the else-branch")
+    else:
+        bv, ov = f"{lv.get('body')}.value", f"{lv.get('orelse')}.value"
+        good = norm(b["body"]) == bv and norm(b["orelse"]) != bv and norm(o["orelse"]) == ov and norm(o["body"]) != ov
+        swapped = (norm(b["orelse"]) == bv and norm(b["body"]) != bv) or (norm(o["body"]) == ov and norm(o["orelse"]) != ov)
+        if good:
+            ctx.ok("MP-polarity", vi, "then-assignments take effect when the condition holds, else-assignments when it does not", "", vi.node)
+        elif swapped:
+            ctx.check(False, "MP-polarity", vi, "then-assignments take effect when the condition holds, else-assignments when it does not", "", "the value assigned in a branch is placed on the wrong side of the generated if-expression", vi.node)
+        else:
+            ctx.undecided(vi.short, f"the generated if-expressions select between `{norm(b['body'])}` / `{norm(b['orelse'])}` and `{norm(o['body'])}` / `{norm(o['orelse'])}`: neither is the assigned value of the branch statement")
     srcs = {norm(n.targets[0]): norm(n.value) for n in walk_no_nested(vi.node) if isinstance(n, ast.Assign) and norm(n.targets[0]) in ("body", "orelse")}
     ctx.check("node.body" in srcs.get("body", "") and "node.orelse" in srcs.get("orelse", ""), "MP-polarity", vi, "body/orelse lists come from node.body/node.orelse", "", f"{srcs}", vi.node)
     # index unrolling
@@ -1085,7 +1096,7 @@ def check_shift_add(ctx: Ctx, fi: FuncInfo):
     floor_log = (f"while2**{N}<={C}:" in txt and f"{N}+=1" in txt and f"if2**{N}>{C}:" in txt and f"{N}-=1" in txt) or f"{N}={C}.bit_length()-1" in txt
     pat.frag_rule(ctx, "SB-SHIFTADD", fi, f"{N} = floor(log2 {C})", floor_log, [(f"while2**{N}<={C}:" in txt and f"{N}-=1" not in txt, f"the search loop leaves {N} one past the leading power of two (2**{N} > {C}): the remainder is negative")], fi.node)
     rec = isinstance(second, ast.Call) and norm(second.func).endswith("mul_even_const") and len(second.args) >= 2 and norm(second.args[1]) == R and norm(second.args[0]) == fi.params[0]
-    guard = any(pol and norm(e).replace(" ", "") == f"{R}>0" for e, pol in guard_facts(fi, adds[0]))
+    guard = any(pol and norm(e).replace(" ", "") == f"{R}>0" for e, pol in guard_facts(fi, adds[0], duals=True))
     if isinstance(second, ast.Call) and norm(second.func).endswith("shift_left"):
         ctx.fail("SB-SHIFTADD", fi, "second addend is x * r", f"the second addend is `{norm(second)[:70]}`: a single shift multiplies by a power of two (here 2**({norm(second.args[1])})), which equals the remainder r only for r in {{2, 4}}: x * 6 = (x << 2) + (x << 1) works, x * 14 = (x << 3) + (x << 3) does not", adds[0])
     else:
